@@ -99,7 +99,9 @@ fn run_item(item: &Item, deadline: std::time::Instant) -> Agg {
                 }
                 if agg.sample.is_none()
                     && out.live >= 3
+                    && ops.len() >= 3
                     && ops.iter().any(|o| matches!(o, Op::Remove { .. }))
+                    && ops.iter().any(|o| matches!(o, Op::Insert { v: 1, .. }))
                     && ops.iter().any(|o| matches!(o, Op::FlushLoad))
                 {
                     agg.sample = Some(json!({
@@ -142,63 +144,94 @@ fn main() {
         run.finish();
     }
 
-    // quick: every history of <= 3 operations from all bases, 4 operations
-    // from the two non-empty bases; thorough: <= 5 operations, two graph
-    // regimes, two layer seeds.
-    let seeds: Vec<u64> = run.tier.pick(vec![1], vec![1, 2]);
-    let cfgs = all_cfgs(&[2, 8], run.tier.pick(false, true));
+    // Stages: (name, configurations, layer seeds, [(operations, bases)]).
+    //  dims  - every dimension 2..=64 (SIMD lanes of 8 + remainder), short histories from the full base
+    //  main  - dims {2,8}, tight graph regime: quick <= 3 operations from all bases + 4 from b7; thorough <= 5
+    //  roomy - thorough only: second graph regime, <= 4 operations
     let all: Vec<&'static str> = BASES.to_vec();
-    let plan: Vec<(usize, Vec<&'static str>)> = run.tier.pick(
-        vec![(0, all.clone()), (1, all.clone()), (2, all.clone()), (3, all.clone()), (4, vec!["b4", "b7"])],
-        (0..=5).map(|d| (d, all.clone())).collect(),
+    let all_dims: Vec<usize> = (2..=64).collect();
+    let dims_cfgs: Vec<Cfg> = all_cfgs(&all_dims, false).into_iter().filter(|c| !c.reconnect_on_delete).collect();
+    let tight = all_cfgs(&[2, 8], false);
+    let roomy: Vec<Cfg> = all_cfgs(&[2, 8], true).into_iter().filter(|c| c.max_connections == 4).collect();
+    type Stage = (&'static str, Vec<Cfg>, Vec<u64>, Vec<(usize, Vec<&'static str>)>);
+    let stages: Vec<Stage> = run.tier.pick(
+        vec![
+            ("dims", dims_cfgs.clone(), vec![1], vec![(0, vec!["b7"]), (1, vec!["b7"])]),
+            ("main", tight.clone(), vec![1], vec![(0, all.clone()), (1, all.clone()), (2, all.clone()), (3, all.clone()), (4, vec!["b7"])]),
+        ],
+        vec![
+            ("dims", dims_cfgs.clone(), vec![1, 2], vec![(0, vec!["b4", "b7"]), (1, vec!["b4", "b7"]), (2, vec!["b4", "b7"])]),
+            ("roomy", roomy.clone(), vec![1], (0..=4).map(|d| (d, all.clone())).collect()),
+            ("main", tight.clone(), vec![1, 2], (0..=5).map(|d| (d, all.clone())).collect()),
+        ],
     );
     let mut completed: Vec<String> = Vec::new();
+    let mut states: BTreeSet<u64> = BTreeSet::new();
+    let mut short_seen = false;
+    let mut n_cfgs = BTreeSet::new();
+    let mut all_seeds = BTreeSet::new();
 
-    for (depth, bases) in plan {
-        if !run.in_budget() {
-            run.cap_hit(&format!("time budget: histories of {depth} operations not started"));
-            break;
+    'stages: for (stage, cfgs, seeds, plan) in stages {
+        for c in &cfgs {
+            n_cfgs.insert(c.label());
         }
-        let work = items(&cfgs, &bases, &seeds, depth);
-        let deadline = std::time::Instant::now() + std::time::Duration::from_secs_f64(run.remaining_s());
-        let aggs: Vec<Agg> = util::par_map(work, util::n_threads(), |item| run_item(&item, deadline));
-        let mut complete = true;
-        let mut states = BTreeSet::new();
-        for a in aggs {
-            complete &= a.complete;
-            run.add("histories", a.histories);
-            run.add("transitions", if depth > 0 { a.histories } else { 0 });
-            run.add("evaluations", a.searches);
-            run.add("searches_nonempty", a.nonempty);
-            run.add("searches_fewer_than_min_k_live", a.short);
-            states.extend(a.states);
-            for k in a.nontrivial {
-                run.distinct(k);
+        all_seeds.extend(seeds.iter().copied());
+        for (depth, bases) in plan {
+            if !run.in_budget() {
+                run.cap_hit(&format!("time budget: stage {stage}, histories of {depth} operations not started"));
+                break 'stages;
             }
-            for v in a.violations {
-                run.violation(v);
+            let work = items(&cfgs, &bases, &seeds, depth);
+            let deadline = std::time::Instant::now() + std::time::Duration::from_secs_f64(run.remaining_s());
+            let aggs: Vec<Agg> = util::par_map(work, util::n_threads(), |item| run_item(&item, deadline));
+            let mut complete = true;
+            let mut samples_here = 0;
+            let mut last_sample_cfg: Option<serde_json::Value> = None;
+            for a in aggs {
+                complete &= a.complete;
+                run.add("histories", a.histories);
+                run.add("transitions", if depth > 0 { a.histories } else { 0 });
+                run.add("evaluations", a.searches);
+                run.add("searches_nonempty", a.nonempty);
+                short_seen |= a.short > 0;
+                states.extend(a.states);
+                for k in a.nontrivial {
+                    run.distinct(k);
+                }
+                for v in a.violations {
+                    run.violation(v);
+                }
+                if let Some(s) = a.sample {
+                    // at most two per (stage, depth), taken from different configurations
+                    if samples_here < 2 && last_sample_cfg.as_ref() != Some(&s["cfg"]) {
+                        last_sample_cfg = Some(s["cfg"].clone());
+                        run.sample(s);
+                        samples_here += 1;
+                    }
+                }
             }
-            if let Some(s) = a.sample {
-                run.sample(s);
+            if complete {
+                completed.push(format!("{stage}: {depth} ops, bases {bases:?}, {} configurations, layer seeds {seeds:?}", cfgs.len()));
+            } else {
+                run.cap_hit(&format!("time budget: stage {stage}, histories of {depth} operations not completed"));
+                break 'stages;
             }
-        }
-        run.add("states", states.len() as u64);
-        if complete {
-            completed.push(format!("{depth} ops: bases {bases:?}"));
-        } else {
-            run.cap_hit(&format!("time budget: histories of {depth} operations not completed"));
-            break;
         }
     }
+    run.add("states", states.len() as u64);
     run.set("completed", json!(completed));
-    run.set("layer_seeds", json!(seeds));
-    run.set("configurations", json!(cfgs.len()));
+    run.set("layer_seeds", json!(all_seeds));
+    run.set("configurations", json!(n_cfgs.len()));
     run.set("bases", json!(BASES));
+    // informational (the property only bounds results from above): in the tight
+    // regime the beam really is too narrow for some queries
+    run.set("some_searches_returned_fewer_than_min_k_live", json!(short_seen));
     run.rule(
         "every history of exactly d operations (d and bases: see `completed`) from each base (empty, ids 1-4 inserted, ids 1-7 inserted) over \
          {insert(id,a|b) for ids not in the index (a re-insert when the id was there before; b = a different vector), remove(id) for ids in \
          the index, flush+load}; 7 fixed vectors x 2 variants incl. an exact duplicate, an opposite and a zero vector; x dims {2,8} x 4 \
-         metrics x 2 selection strategies x reconnect_on_delete on/off (thorough: x 2 graph regimes) x declared layer seeds; each history is \
+         metrics x 2 selection strategies x reconnect_on_delete on/off (thorough: x 2 graph regimes) x declared layer seeds, plus a stage \
+         over EVERY dimension 2..=64 (short histories from the full base; SIMD lane remainder paths); each history is \
          executed from scratch on the real HnswIndex and after its last operation every stored vector + 3 out-of-distribution queries are \
          searched with k=1..n+1 and compared with the VecModel; states = distinct (configuration, depth, live set + vectors); distinct \
          non-trivial = states with >= 2 live vectors",
